@@ -177,6 +177,9 @@ func hintDelegations(shape string) (names []string, reached bool) {
 		case "in":
 			names = append(names, hintIn)
 			reached = true
+		case "site":
+			names = append(names, hintSite)
+			reached = true
 		case "out":
 			names = append(names, hintOut)
 		case "out2":
